@@ -129,3 +129,19 @@ def observe(h, problems=None):
             P.append("get_weights(asdict=True):differs-from-get_weight")
     hgmd = copy.deepcopy(h.get_hypergraph_metadata())
     return State(weighted, nodes, edges, hgmd)
+
+
+def npize(rng, v, p=0.15):
+    """The same argument value as a NumPy scalar (sizes, orders, counts, thresholds and flags routinely come out of
+    arrays): np.int64 / np.float64 / np.bool_ with probability p, the plain Python value otherwise."""
+    if v is None or rng.random() >= p:
+        return v
+    import numpy as np
+
+    if isinstance(v, bool):
+        return np.bool_(v)
+    if isinstance(v, int):
+        return np.int64(v) if abs(v) < 2 ** 62 else v
+    if isinstance(v, float):
+        return np.float64(v)
+    return v
